@@ -8,6 +8,7 @@ import (
 	"os/exec"
 	"sync"
 	"syscall"
+	"time"
 
 	"github.com/criyle/go-sandbox/pkg/forkexec"
 	"github.com/criyle/go-sandbox/pkg/mount"
@@ -302,6 +303,10 @@ func (c *container) recvLoop() {
 			c.socketError(err)
 			return
 		}
+		// a deadline (Ping) covers the reply just received only: clear it before the caller
+		// can see the reply, otherwise the next RecvMsg of this loop may start with the expired
+		// deadline still armed and declare a healthy container dead
+		c.socket.SetReadDeadline(time.Time{})
 		c.recvCh <- recvReply{
 			Reply: reply,
 			Msg:   msg,
